@@ -36,12 +36,29 @@ var (
 	flagWorkers  = flag.Int("workers", 16, "number of worker subprocesses")
 )
 
+func envInt(k string, d int) int {
+	if v := os.Getenv(k); v != "" {
+		var n int
+		fmt.Sscan(v, &n)
+		return n
+	}
+	return d
+}
+
 func histories(thorough bool) []reclib.History {
 	b := reclib.NewBuilder(1)
 	hs := []reclib.History{
-		{Name: "video+audio", PartDuration: 100 * time.Millisecond, SegmentDuration: 250 * time.Millisecond,
-			Sessions: []reclib.Session{b.Build(reclib.SessionOpts{Video: true, Audio: true, PTS0: 2 * time.Second,
-				VideoPeriod: 50 * time.Millisecond, VideoCount: 13, GOP: 5, AudioCount: 28, VideoSize: 20, AudioSize: 6})}},
+		// the server is restarted after the first session and records again: a second publisher
+		// session whose audio timestamps are ahead of its video timestamps (A/V skew)
+		{Name: "video+audio, then a restart and a second session with skewed audio", PartDuration: 100 * time.Millisecond, SegmentDuration: 250 * time.Millisecond,
+			Sessions: []reclib.Session{
+				b.Build(reclib.SessionOpts{Video: true, Audio: true, PTS0: 2 * time.Second,
+					VideoPeriod: 50 * time.Millisecond, VideoCount: 13, GOP: 5, AudioCount: 28, VideoSize: 20, AudioSize: 6}),
+				b.Build(reclib.SessionOpts{Video: true, Audio: true, Start: 10 * time.Second, PTS0: 500 * time.Millisecond,
+					AudioLead:   time.Duration(envInt("C27_LEAD", -60)) * time.Millisecond,
+					AudioSkew:   time.Duration(envInt("C27_SKEW", 200)) * time.Millisecond,
+					VideoPeriod: 50 * time.Millisecond, VideoCount: envInt("C27_VC", 11), GOP: 4, AudioCount: envInt("C27_AC", 22), VideoSize: 14, AudioSize: 5}),
+			}},
 		{Name: "audio-only", PartDuration: 100 * time.Millisecond, SegmentDuration: 300 * time.Millisecond,
 			Sessions: []reclib.Session{b.Build(reclib.SessionOpts{Audio: true, PTS0: 1 * time.Second,
 				AudioCount: 32, AudioSize: 9})}},
@@ -321,8 +338,27 @@ func main() {
 			}
 			r.Sample(map[string]any{"history": h.Name, "write_log": l})
 		}
-		corpus.Hists = append(corpus.Hists, HistCorpus{History: rec.History, Ops: fine, Final: final, Segs: segs})
-		corpus.States = append(corpus.States, enumerate(len(corpus.Hists)-1, fine, full)...)
+		// ---- sessions: the step at which every session was closed; a later session (the server
+		// restarted) must only create and extend files of its own, so that its files can be put
+		// next to any crash state of an earlier session
+		var sessionEnd []int
+		{
+			n := 0
+			for _, ss := range h.Sessions {
+				n += len(ss.Units)
+				sessionEnd = append(sessionEnd, n)
+				n++
+			}
+			owner := map[string]int{}
+			for i, sn := range opSessions(fine, sessionEnd) {
+				if o, ok := owner[fine[i].File]; ok && o != sn {
+					harnessErr("history %q: %v (session %d) touches a file of session %d: later sessions cannot be replayed on their own", h.Name, fine[i], sn, o)
+				}
+				owner[fine[i].File] = sn
+			}
+		}
+		corpus.Hists = append(corpus.Hists, HistCorpus{History: rec.History, Ops: fine, Final: final, Segs: segs, SessionEnd: sessionEnd})
+		corpus.States = append(corpus.States, enumerate(len(corpus.Hists)-1, fine, full, sessionEnd)...)
 	}
 
 	if *flagReplay != "" {
@@ -365,6 +401,9 @@ func main() {
 	kinds := map[string]int{}
 	for _, s := range corpus.States {
 		kinds[s.Kind]++
+		if s.Later {
+			kinds["followed_by_later_recording"]++
+		}
 	}
 	deaths := 0
 	reqs := 0
